@@ -57,7 +57,36 @@ Theorem C12_grammar_rejects_late_poll_inside_pair :
   = None.
 Proof. vm_compute. reflexivity. Qed.
 
+(** consequently: encoding any ParameterNumberMessage in either byte order, feeding it and polling
+    after the timeout reports exactly that message, once (grammar level; the theorem above
+    transfers it to the scanner, after any prior traffic, preceded at most by a flush) *)
+Theorem C12_encode_feed_poll_7bit : forall c hi lo reg v t timeout,
+  exists g os g' o,
+    g_feeds G0 c t [(sel_msb reg, hi); (sel_lsb reg, lo); (6, v)] = Some (g, os) /\
+    g_poll timeout g c (t + timeout) = Some (g', o) /\
+    reports os ++ (match o with Some m => [m] | None => [] end) = [m7 c hi lo reg v DataEntry] /\
+    g_poll timeout g' c (t + timeout) = Some (g', None).
+Proof. exact encode_feed_poll_7bit. Qed.
+
+Theorem C12_encode_feed_poll_14bit : forall c hi lo reg vm vl t timeout (msb_first : bool),
+  exists g os,
+    g_feeds G0 c t ([(sel_msb reg, hi); (sel_lsb reg, lo)] ++
+                    (if msb_first then [(6, vm); (38, vl)] else [(38, vl); (6, vm)])) = Some (g, os) /\
+    reports os = [m14 c hi lo reg vm vl] /\
+    g_poll timeout g c (t + timeout) = Some (g, None).
+Proof. exact encode_feed_poll_14bit. Qed.
+
+Theorem C12_encode_feed_poll_incdec : forall c hi lo reg v t timeout (inc : bool),
+  exists g os,
+    g_feeds G0 c t [(sel_msb reg, hi); (sel_lsb reg, lo); (if inc then 96 else 97, v)] = Some (g, os) /\
+    reports os = [m7 c hi lo reg v (if inc then DataIncrement else DataDecrement)] /\
+    g_poll timeout g c (t + timeout) = Some (g, None).
+Proof. exact encode_feed_poll_incdec. Qed.
+
 Print Assumptions C12_documented_forms_decoded.
+Print Assumptions C12_encode_feed_poll_7bit.
+Print Assumptions C12_encode_feed_poll_14bit.
+Print Assumptions C12_encode_feed_poll_incdec.
 Print Assumptions C12_lone_msb_then_next_message.
 Print Assumptions C12_lone_msb_then_poll.
 Print Assumptions C12_pairs_and_fine_adjustment.
